@@ -493,6 +493,23 @@ impl PairMonitor {
                 out.bucket("kind_with_zero_records");
             }
         }
+        // one object per algorithm and kind for the whole case (as a user holds on to a configured
+        // similarity): the answer for a pair must not depend on what the object was asked before
+        let objs: Vec<_> = (0..3)
+            .map(|k| {
+                let kind = KINDS[k];
+                (
+                    GraphIc::new(kind),
+                    Resnik::new(kind),
+                    Lin::new(kind),
+                    Jc::new(kind),
+                    Relevance::new(kind),
+                    InformationCoefficient::new(kind),
+                    Distance::new(),
+                    Mutation::new(kind),
+                )
+            })
+            .collect();
         for a in &ids {
             let ta: HpoTerm = pc.ont.hpo(*a).expect("term");
             let oa = &obs.terms[a];
@@ -563,21 +580,16 @@ impl PairMonitor {
 
                     let kind = KINDS[k];
                     // (index, name, expected, struct value, builtin value)
+                    let o = &objs[k];
                     let algos: [(usize, &str, f64, f32, f32); 8] = [
-                        (0, "graphic", g_a, GraphIc::new(kind).calculate(&ta, &tb), Builtins::GraphIc(kind).calculate(&ta, &tb)),
-                        (1, "resnik", r, Resnik::new(kind).calculate(&ta, &tb), Builtins::Resnik(kind).calculate(&ta, &tb)),
-                        (2, "lin", lin, Lin::new(kind).calculate(&ta, &tb), Builtins::Lin(kind).calculate(&ta, &tb)),
-                        (3, "jc", jc, Jc::new(kind).calculate(&ta, &tb), Builtins::Jc(kind).calculate(&ta, &tb)),
-                        (4, "relevance", rel, Relevance::new(kind).calculate(&ta, &tb), Builtins::Relevance(kind).calculate(&ta, &tb)),
-                        (
-                            5,
-                            "informationcoefficient",
-                            icoef,
-                            InformationCoefficient::new(kind).calculate(&ta, &tb),
-                            Builtins::InformationCoefficient(kind).calculate(&ta, &tb),
-                        ),
-                        (6, "distance", distance, Distance::new().calculate(&ta, &tb), Builtins::Distance(kind).calculate(&ta, &tb)),
-                        (7, "mutation", mutation, Mutation::new(kind).calculate(&ta, &tb), Builtins::Mutation(kind).calculate(&ta, &tb)),
+                        (0, "graphic", g_a, o.0.calculate(&ta, &tb), Builtins::GraphIc(kind).calculate(&ta, &tb)),
+                        (1, "resnik", r, o.1.calculate(&ta, &tb), Builtins::Resnik(kind).calculate(&ta, &tb)),
+                        (2, "lin", lin, o.2.calculate(&ta, &tb), Builtins::Lin(kind).calculate(&ta, &tb)),
+                        (3, "jc", jc, o.3.calculate(&ta, &tb), Builtins::Jc(kind).calculate(&ta, &tb)),
+                        (4, "relevance", rel, o.4.calculate(&ta, &tb), Builtins::Relevance(kind).calculate(&ta, &tb)),
+                        (5, "informationcoefficient", icoef, o.5.calculate(&ta, &tb), Builtins::InformationCoefficient(kind).calculate(&ta, &tb)),
+                        (6, "distance", distance, o.6.calculate(&ta, &tb), Builtins::Distance(kind).calculate(&ta, &tb)),
+                        (7, "mutation", mutation, o.7.calculate(&ta, &tb), Builtins::Mutation(kind).calculate(&ta, &tb)),
                     ];
                     for (ai, name, exp, sval, bval) in algos {
                         bump(&mut out.events, "Similarity::calculate");
@@ -647,6 +659,37 @@ impl PairMonitor {
             ("mutation", 7),
             ("mut", 7),
         ];
+        // second sweep over the same objects (in another pair order): same answers, bit for bit
+        {
+            let again: Vec<u32> = ids.iter().rev().copied().take(24).collect();
+            for b in &again {
+                for a in &again {
+                    let (ta, tb) = (pc.ont.hpo(*a).unwrap(), pc.ont.hpo(*b).unwrap());
+                    for k in 0..3 {
+                        let o = &objs[k];
+                        let vals: [(usize, &str, f32); 8] = [
+                            (0, "graphic", o.0.calculate(&ta, &tb)),
+                            (1, "resnik", o.1.calculate(&ta, &tb)),
+                            (2, "lin", o.2.calculate(&ta, &tb)),
+                            (3, "jc", o.3.calculate(&ta, &tb)),
+                            (4, "relevance", o.4.calculate(&ta, &tb)),
+                            (5, "informationcoefficient", o.5.calculate(&ta, &tb)),
+                            (6, "distance", o.6.calculate(&ta, &tb)),
+                            (7, "mutation", o.7.calculate(&ta, &tb)),
+                        ];
+                        for (ai, name, v) in vals {
+                            bump(&mut out.events, "Similarity::calculate");
+                            if let Some(first) = cache.get(&(*a, *b, k, ai)) {
+                                out.check(first.to_bits() == v.to_bits() || (first.is_nan() && v.is_nan()), "C04", &format!("answer_changes_on_reuse/{name}"), || {
+                                    format!("{name}({})({a},{b}) = {first} when first asked, {v} when the same object is asked again", KIND_NAMES[k])
+                                });
+                            }
+                        }
+                    }
+                }
+            }
+            out.bucket("similarity_objects_reused");
+        }
         let sample: Vec<u32> = ids.iter().copied().take(6).collect();
         for a in &sample {
             for b in &sample {
